@@ -179,6 +179,9 @@ def cases(tier, seed):
     for res, e3 in itertools.product(itertools.product(rv, repeat=3), [(1.0, 1.0, 1.0), (2.0, 1.5, 3.7)]):
         if sum(res) < 1:
             out.append({"kind": "twophase", "res": list(res), "exps": list(e3), "ends": [1.0, 0.4, 1.0]})
+    # connate-water saturations that are not short decimals (a table keyed on rounded saturations would move them)
+    for s_wc, e3 in itertools.product([0.12346, 1 / 3, 0.0777777777, 1e-7], [(1.0, 1.0, 1.0), (2.0, 1.5, 3.7)]):
+        out.append({"kind": "twophase", "res": [0.1, s_wc, 0.05], "exps": list(e3), "ends": [1.0, 0.4, 1.0]})
     return out
 
 
